@@ -29,7 +29,7 @@ Theorem c03_single_file_data_loss :
      the very call that starts it (sender: Positive ACK Limit fault when the limit is 1; receiver: a second Finished
      PDU is prepared before the first was retrieved -> UnretrievedPdusToBeSent) *)
   0 < r_ack_ms rs -> 0 < r_ack_ms rd ->
-  (bits = 8 \/ bits = 16 \/ bits = 32) -> 0 <= seq0 < 2 ^ bits -> 1 <= seg ->
+  (bits = 8 \/ bits = 16 \/ bits = 32) -> 0 <= seq0 < 2 ^ bits -> 1 <= seg -> 6 <= derived ->
   (r_cktype rs = CK_CRC32 \/ r_cktype rs = CK_CRC32C \/ r_cktype rs = CK_NULL \/ r_cktype rs = CK_MODULAR) ->
   bytes_ok data = true ->
   (* receiver side: entity cd is the addressed entity and knows the sender; the destination path is a fresh file name
